@@ -26,6 +26,9 @@ inline double dubins_angle(const smooth::SO2d & x1, const smooth::SO2d & x2, Dub
 
   if (s == DubinsSegment::Right) { d = -d; }
 
+  // an angle that vanishes up to rounding is not a full turn
+  if (d < 0 && d > -1e-12) { d = 0; }
+
   return d >= 0 ? d : 2 * pi + d;
 }
 
